@@ -75,6 +75,17 @@ def gen_c01(rnd, n, thorough=False):
                 tags['ops']['jump'] = tags['ops'].get('jump', 0) + 1
             _observe(rnd, lines, layout, list(range(0, a + 1)), now, nwin=3)
         cases.append({'id': 'c01-%d' % c, 'lines': lines, 'tags': tags})
+    # a window of more than a megabyte of slots over a written archive: every written interval shows
+    # its value wherever it lies in the window (also after the ring has wrapped)
+    N = 100000 if not thorough else 150000
+    nw = 1700000000 + rnd.randint(0, 10 ** 6)
+    offs = sorted(set([0, 1, 87380, 87381, 87382, 87383, N - 1, N - 2, N // 2] + [rnd.randrange(N) for _ in range(40)]))
+    pts = [(nw - o, small_value(rnd)) for o in offs]
+    lines = ["create f 1 1 %d m 2 x 3f000000" % N, _many('f', 0, nw, pts), "fetch f 0 %d %d %d" % (nw - N, nw, nw)]
+    nw2 = nw + 10000
+    pts2 = [(nw2 - o, small_value(rnd)) for o in range(0, 10000, 997)]
+    lines += [_many('f', 0, nw2, pts2), "fetch f 0 %d %d %d" % (nw2 - N, nw2, nw2), "fetch f 0 %d %d %d" % (nw2 - 87382, nw2, nw2)]
+    cases.append({'id': 'c01-big', 'lines': lines, 'tags': {'layout': 'big%d' % N, 'levels': 1, 'target': 0, 'ops': {'many': 2}}})
     return cases
 
 
@@ -83,7 +94,7 @@ def gen_c02(rnd, n, thorough=False):
     all archives after each write.  NaN-valued writes are kept away from max/min (scan order
     with a NaN among the known values is not determined by the property)."""
     cases = []
-    names = ['ring2', 'ring2c', 'ratioN', 'barely', 'barely3', 'three', 'four', 'tens', 'multipage', 'ring1b', 'short2', 'short3', 'short3', 'short3b']
+    names = ['ring2', 'ring2c', 'ratioN', 'barely', 'barely3', 'three', 'four', 'tens', 'multipage', 'ring1b', 'short2', 'short3', 'short3', 'short3b', 'ratio512', 'ratio600']
     for c in range(n):
         lname, layout = pick_layout(rnd, names, random_share=0.35, levels=rnd.pick([2, 3, 4]))
         if len(layout) < 2:
@@ -230,6 +241,23 @@ def gen_c03(rnd, n, thorough=False):
                 tags['ops'][kind] = tags['ops'].get(kind, 0) + 1
             _observe(rnd, lines, layout, list(range(k)), now, nwin=2)
         cases.append({'id': 'c03-%d' % c, 'lines': lines, 'tags': tags})
+    # one batch of more than 2^16 points (most of them too old): the result is that of the whole batch
+    # sorted by time -- a point routed to the coarser archive and a finer point of the same coarse slot,
+    # two points of one slot -- whatever lies between them in the caller's order
+    # (the filler is in descending time order: the model's stable insertion sort is linear on it)
+    for j in range(2):
+        layout = [(1, 10), (5, 12)]
+        now = 1700000000 + 5 * rnd.randint(0, 10 ** 5)           # a multiple of the coarser step
+        B = (now - 10, fbits(7.0))                               # exactly as old as the finest retention: archive 1, slot now-10
+        A = (now - 10 + rnd.randint(1, 4), fbits(1.0))           # archive 0, and by propagation the same slot of archive 1
+        C1 = (now - 20 + 1, fbits(3.0))                          # two points of one slot of archive 1 (slot now-20) ...
+        C2 = (now - 20 + 3, fbits(4.0))                          # ... the later timestamp wins
+        filler = [(now - 10 ** 6 - i, fbits(float(i % 7))) for i in range(65536 + rnd.randint(1, 50))]
+        order = [[B, C2] + filler + [A, C1], [A, C1] + filler + [B, C2]][j]
+        lines = [_create('f', layout, 2, 0), _many('f', -1, now, order)]
+        for a in range(2):
+            lines += ["fetch f %d %d %d %d" % (a, now - layout[a][0] * layout[a][1], now, now), "raw f %d" % a]
+        cases.append({'id': 'c03-bigbatch-%d' % j, 'lines': lines, 'tags': {'layout': 'two', 'levels': 2, 'ops': {'big_batch': 1}}})
     # small-scope exhaustive sweeps: a single update at EVERY age from 3 s in the future to 3 s
     # beyond the maximum retention (best archive and every named one), each on a fresh file so that
     # the raw dump shows exactly where it went; and every 2-point batch over the same ages
@@ -389,6 +417,11 @@ def gen_c05(rnd, n, thorough=False):
             lines += ["dfetch f 0 0 %d %d" % (now, now), "drop f", "disk f", "open f"]
             cases.append({'id': 'c05-%d' % c, 'lines': lines, 'tags': {'layout': lname, 'levels': k, 'ops': {'neversynced': 1}}})
             continue
+        if rnd.chance(0.2):
+            # reads on the created handle before anything was synced (the header exists in memory only)
+            lines += ["fetch f %d %d %d %d" % (rnd.randrange(k), now - 5, now, now), "raw f %d" % rnd.randrange(k)]
+            if rnd.chance(0.5):
+                lines.append("upd f -1 %d %016x %d" % (now - rnd.randint(0, rets[0] - 1), value(rnd, nan_ok), now))
         lines.append("sync f")
         tags = {'layout': lname, 'levels': k, 'ops': {}, 'bytes': 16 + 12 * k + 12 * sum(nn for _, nn in layout)}
         for _ in range(rnd.randint(2, 24 if thorough else 12)):
